@@ -329,6 +329,10 @@ func c04Handwritten() []string {
 		Lines(Var("pos", "0"), Fun("find", "", " "+For("pos = 0;", "pos < 5", "pos = pos + 1", "{ "+If("pos == 1", Ret("pos"))+" }")+" "+Ret("-1")+" "), Print("find()"), Print("pos")),
 		Lines(Var("ticks", "0"), Fun("tick", "", " ticks = ticks + 1; "+Ret("ticks")+" "), Fun("g", "", " "+For(Var("i", "0"), "i < 9", "i = tick()", "{ "+If("i == 3", Ret(`"found"`))+" }")+" "+Ret(`"none"`)+" "), Print("g()"), Print("ticks")),
 		Lines(Fun("g", "", " "+Var("n", "0")+" "+For(";", "", "n = n + 1", "{ "+If("n == 2", "{ "+Ret("n")+" }")+" }")+" "), Print("g()")),
+		// factories whose inner function is declared inside a branch, a loop body or a bare block: every call of the factory makes a separate variable
+		Lines(Fun("make", "kind", " "+Var("n", "0")+" "+IfElse(`kind == "up"`, "{ "+Fun("step", "", " n = n + 1; "+Ret("n")+" ")+" "+Ret("step")+" }", "{ "+Fun("step", "", " n = n - 1; "+Ret("n")+" ")+" "+Ret("step")+" }")+" "), Var("u", `make("up")`), Print("u()"), Print("u()"), Var("d", `make("down")`), Print("d()"), Print("u()"), Print("d()"), Print("u()"), Var("u2", `make("up")`), Print("u2()"), Print("u()")),
+		Lines(Fun("mk", "start", " "+Var("acc", "start")+" "+While(True(), "{ "+Fun("add", "x", " acc = acc + x; "+Ret("acc")+" ")+" "+Ret("add")+" }")+" "), Var("a1", "mk(10)"), Print("a1(1)"), Var("a2", "mk(100)"), Print("a2(1)"), Print("a1(1)"), Print("a2(5)"), Print("a1(5)")),
+		Lines(Fun("cell", "v", " { "+Fun("get", "", " "+Ret("v")+" ")+" "+Fun("set", "x", " v = x; "+Ret("v")+" ")+" "+Ret("[get, set]")+" } "), Var("c1", "cell(1)"), Var("c2", "cell(2)"), Print("c1[0]()"), "c2[1](20);", Print("c1[0]()"), Print("c2[0]()"), Var("c3", "cell(3)"), Print("c1[0]() + c2[0]() + c3[0]()")),
 		// parameters whose spelling Unicode normalisation would rewrite, read and assigned in the body and in inner closures
 		Lines(Var("\u09ac\u09df\u09b8", "99"), Fun("f", "\u09ac\u09df\u09b8", " \u09ac\u09df\u09b8 = \u09ac\u09df\u09b8 + 1; "+Ret("\u09ac\u09df\u09b8")+" "), Print("f(20)"), Print("\u09ac\u09df\u09b8"),
 			Fun("mk", "\u09b8\u09ae\u09df", " "+Fun("up", "\u09ac\u09dc", " \u09b8\u09ae\u09df = \u09b8\u09ae\u09df + \u09ac\u09dc; "+Ret("\u09b8\u09ae\u09df")+" ")+" "+Ret("up")+" "), Var("u1", "mk(1)"), Var("u2", "mk(100)"), Print("u1(1)"), Print("u2(1)"), Print("u1(5)")),
